@@ -3,6 +3,7 @@
 From Coq Require Import List NArith Bool.
 From V.gen Require CapsTables.
 From V.Mgr Require Import DialShape Model Caps CapsExt Limits LimitsProofs PeerTable PeerTableProofs.
+From V.Mgr Require Ledger LedgerInv CapsLedger.
 From V.C06 Require Tables TcpReject Compose08.
 Import ListNotations.
 Open Scope N_scope.
@@ -320,6 +321,21 @@ Theorem C06_reject_reserves_nothing :
   ins (fst (do_established L m p c t lst f)) = ins m /\ outs (fst (do_established L m p c t lst f)) = outs m.
 Proof. exact reject_reserves_nothing. Qed.
 Print Assumptions C06_reject_reserves_nothing.
+
+(* The two side conditions hold in every state the manager reaches while the transports keep their
+   contract (C05's ledger invariant: `Reach`, `feas`), so there the decision needs no hypothesis
+   about the state. *)
+Theorem C06_decision_reachable :
+  forall L m g p c t (lst f : bool),
+  LedgerInv.Reach L m g -> LedgerInv.feas L m g (TrEstablished p c t lst f) ->
+  let os := snd (do_established L m p c t lst f) in
+  let ok := snd (st_on_established (state_of m p) c) in
+  (In (CallAccept c t) os <-> dir_full L m lst = false /\ ok = true) /\
+  (In (CallReject c t) os <-> dir_full L m lst = true \/ ok = false) /\
+  (In (CallReject c t) os ->
+   ins (fst (do_established L m p c t lst f)) = ins m /\ outs (fst (do_established L m p c t lst f)) = outs m).
+Proof. exact CapsLedger.decision_reachable. Qed.
+Print Assumptions C06_decision_reachable.
 
 (* below the maximum, a connection of a peer the node is not connected to is accepted whatever its
    dial state (idle, dialing, opening, a remembered dial): generalises C06_below_limit_accepts *)
